@@ -176,14 +176,16 @@ theorem evalExpr_error (env : Env) (e : Expr) (x : PErr) (h : evalExpr env e = .
       · simp at h
       · split at h
         · simp at h
-        · split at h <;> simp at h; exact h.symm
+        · split at h
+          · simp at h
+          · split at h <;> simp at h; exact h.symm
 
 /-- What a delivered value can be: the very string, or its evaluation (never in
     string mode, never for a blank string, in auto mode only for a parsable
     one and only when the evaluator produced a value). -/
 theorem evalExpr_user (env : Env) (s : Str) (m : Mode) (v : Val) (h : evalExpr env (.user s m) = .ok v) :
     v = .raw s ∨ (v = .evaluated s ∧ m ≠ .string ∧ blank s = false ∧ env.outcome s = .value
-                  ∧ (m = .auto → env.parsable s = true)) := by
+                  ∧ (m = .auto → env.parsable s = true ∧ env.compileRaises s = false)) := by
   cases m with
   | string => simp [evalExpr] at h; left; exact h.symm
   | eval =>
@@ -201,25 +203,53 @@ theorem evalExpr_user (env : Env) (s : Str) (m : Mode) (v : Val) (h : evalExpr e
     · rename_i hb
       split at h
       · simp at h; left; exact h.symm
-      · rename_i hp
+      · rename_i hc
         split at h
-        · rename_i ho; simp at h; right; simp [← h, ho]; constructor
-          · simpa using hb
-          · simpa using hp
         · simp at h; left; exact h.symm
-        · simp at h
+        · rename_i hp
+          split at h
+          · rename_i ho; simp at h; right; simp [← h, ho]; refine ⟨?_, ?_, ?_⟩
+            · simpa using hb
+            · simpa using hp
+            · simpa using hc
+          · simp at h; left; exact h.symm
+          · simp at h
 
 theorem evalExpr_auto_raw_reason (env : Env) (s : Str) (h : evalExpr env (.user s .auto) = .ok (.raw s)) :
-    blank s = true ∨ env.parsable s = false ∨ env.outcome s = .unimportable := by
+    blank s = true ∨ env.compileRaises s = true ∨ env.parsable s = false ∨ env.outcome s = .unimportable := by
   simp only [evalExpr] at h
   split at h
   · left; assumption
   · split at h
-    · rename_i hp; right; left; simpa using hp
+    · rename_i hc; right; left; exact hc
     · split at h
-      · simp at h
-      · rename_i ho; right; right; exact ho
-      · simp at h
+      · rename_i hp; right; right; left; simpa using hp
+      · split at h
+        · simp at h
+        · rename_i ho; right; right; right; exact ho
+        · simp at h
+
+/-- **The converse for text on which `compile()` gives up** (lone surrogates,
+    too long / too deep): in auto mode it is delivered as the original string —
+    never rejected, never altered — whatever the evaluator would do. -/
+theorem evalExpr_auto_compile_raises (env : Env) (s : Str) (h : env.compileRaises s = true) :
+    evalExpr env (.user s .auto) = .ok (.raw s) := by
+  simp only [evalExpr]
+  split
+  · rfl
+  · simp [h]
+
+/-- … and likewise for blank and for unparsable text -/
+theorem evalExpr_auto_unparsable (env : Env) (s : Str) (h : blank s = true ∨ env.parsable s = false) :
+    evalExpr env (.user s .auto) = .ok (.raw s) := by
+  simp only [evalExpr]
+  split
+  · rfl
+  · split
+    · rfl
+    · rcases h with h | h
+      · rename_i hb _; exact absurd h hb
+      · simp [h]
 
 theorem evalAll_append (env : Env) (l1 l2 : List Expr) :
     evalAll env (l1 ++ l2) =
